@@ -15,4 +15,34 @@ impl From<LogSnapshotItem> for SnapshotRecordDto {
     #[verifier::external_body]
     fn from(value: LogSnapshotItem) -> (r: Self) ensures r == item_dto(value) { unimplemented!() }
 }
+/// DTO -> message (field-wise copies in model.rs)
+pub uninterp spec fn hdr_msg(d: SnapshotHeaderDto) -> SnapshotHeader;
+pub uninterp spec fn item_msg(d: SnapshotRecordDto) -> LogSnapshotItem;
+impl SnapshotHeaderDto {
+    #[verifier::external_body]
+    pub fn to_record_do(&self) -> (r: SnapshotHeader) ensures r == hdr_msg(*self) { unimplemented!() }
+}
+impl SnapshotRecordDto {
+    #[verifier::external_body]
+    pub fn to_record_do(&self) -> (r: LogSnapshotItem) ensures r == item_msg(*self) { unimplemented!() }
+}
+/// A-DTO
+pub broadcast axiom fn axiom_hdr_roundtrip(d: SnapshotHeaderDto) ensures #[trigger] hdr_dto(hdr_msg(d)) == d;
+pub broadcast axiom fn axiom_item_roundtrip(d: SnapshotRecordDto) ensures #[trigger] item_dto(item_msg(d)) == d;
+/// A-SNAPNONEMPTY
+pub broadcast axiom fn axiom_hdr_nonempty(d: SnapshotHeaderDto) ensures 1 <= #[trigger] hdr_msg(d).pb_bytes().len() < 0x1000_0000;
+pub broadcast axiom fn axiom_item_nonempty(d: SnapshotRecordDto) ensures 1 <= #[trigger] item_msg(d).pb_bytes().len() < 0x1000_0000;
+/// A-CODEC: what the encoder wrote, the decoder accepts
+pub broadcast axiom fn axiom_hdr_decodes(m: SnapshotHeader) ensures #[trigger] pb_decodes::<SnapshotHeader>(pb_frame(m));
+pub broadcast axiom fn axiom_item_decodes(m: LogSnapshotItem) ensures #[trigger] pb_decodes::<LogSnapshotItem>(pb_frame(m));
+
+/// actix, reduced to what the writer actor uses
+#[verifier::external_body]
+#[verifier::reject_recursive_types(A)]
+pub struct Context<A> { inner: core::marker::PhantomData<A> }
+impl<A> Context<A> {
+    /// the actor stops taking messages
+    #[verifier::external_body]
+    pub fn stop(&mut self) { unimplemented!() }
+}
 } // verus!
